@@ -387,7 +387,7 @@ pub fn run(ctx: &mut Ctx, hash: bool) {
     let g = Gen { names: &names, max_depth: 6, max_arity: 4, placeholders: true, set_bias: true };
     let mut rng = ctx.rng(if hash { 0xC07 } else { 0xC06 });
     let reps = if ctx.thorough { 6 } else { 8 };
-    let n = if hash { ctx.share(250_000, 8_000_000) } else { ctx.share(250_000, 10_000_000) };
+    let n = if hash { ctx.share(1_000_000, 10_000_000) } else { ctx.share(1_000_000, 12_000_000) };
 
     // (0) fixed small-scope family: every set-like kind nested in every set-like kind / symmetric
     // statement, with 3 distinct members, all 6 insertion orders of the inner set vs the first one.
